@@ -98,6 +98,27 @@ pub fn random_path(rng: &mut Rng, class: PathClass) -> String {
                     s.push(if i % 17 == 16 { '/' } else { (b'a' + (i % 26) as u8) as char });
                 }
                 s
+            } else if rng.chance(1, 8) {
+                // characters a "sanitising" or "normalising" step would touch: Unicode blanks at the
+                // edges (str::trim removes them), invisible and bidirectional controls, variation
+                // selectors, tags, compatibility forms and case-sensitive letters anywhere
+                let edge: Vec<char> = " \t\n\r\u{b}\u{c}\u{85}\u{a0}\u{1680}\u{2000}\u{2009}\u{200a}\u{2028}\u{2029}\u{202f}\u{205f}\u{3000}\u{feff}\u{200b}".chars().collect();
+                let inner: Vec<char> = "\u{ad}\u{200b}\u{200c}\u{200d}\u{200e}\u{200f}\u{202a}\u{202c}\u{202e}\u{2060}\u{2066}\u{2069}\u{fe0f}\u{fe00}\u{fff9}\u{fffb}\u{fffc}\u{e0001}\u{e007f}\u{1d173}\u{34f}\u{61c}\u{180e}\u{212b}\u{c5}\u{41}\u{30a}\u{fb01}\u{1e9e}\u{df}\u{130}\u{131}\u{3a3}\u{3c2}\u{ff21}\u{2126}".chars().collect();
+                let mut chars: Vec<char> = random_path(rng, PathClass::Benign).chars().collect();
+                for _ in 0..rng.range(0, 3) {
+                    let at = rng.usize_below(chars.len() + 1);
+                    chars.insert(at, *rng.pick(&inner));
+                }
+                if rng.chance(2, 3) {
+                    chars.insert(0, *rng.pick(&edge));
+                }
+                if rng.chance(2, 3) {
+                    chars.push(*rng.pick(&edge));
+                }
+                if rng.chance(1, 5) {
+                    chars.push(*rng.pick(&edge));
+                }
+                chars.into_iter().collect()
             } else if rng.chance(1, 4) {
                 let alphabet: Vec<char> = " ~%;#()[]{}'|&$*?<>=!\t\r\u{0}\u{7f}\u{1b}\u{feff}\u{2028}\u{e9}\u{3b1}\u{4e2d}\u{1F4BE}\u{301}/abc012.-_".chars().collect();
                 let n = rng.range(1, 24);
